@@ -173,11 +173,18 @@ func c12FilterSummary(w *World, fn *ssa.Function, ta *ssa.TypeAssert) (bool, str
 
 // ---- index / slice expressions ---------------------------------------------------
 
-func c12Indexes(c *Ctx) {
+func c12Indexes(c *Ctx) { c12IndexesIn(c, "*") }
+
+// c12IndexesIn runs the index/slice inventory on one package ("*" = every product package).
+func c12IndexesIn(c *Ctx, rel string) {
 	w := c.W
 	rule := "inventory: a slice/string index or slice expression cannot go out of range — induction variable of a loop over the same (or an equal-length) slice, constant index under a length guard, bounds established by a guard or a producer contract, or a table entry"
 	n := 0
-	for _, fn := range w.Funcs {
+	funcs := w.Funcs
+	if rel != "*" {
+		funcs = w.FuncsOfPkg(rel)
+	}
+	for _, fn := range funcs {
 		fi := w.Info(fn)
 		loops := allLoops(fn)
 		k := 0
